@@ -294,6 +294,10 @@ func Run(t *testing.T, prop, tier string, c *simcore.Choices, full bool) *simcor
 					return
 				}
 				for i := range members {
+					// once the context has ended the gathering loop may stop at any point
+					if ctxEnd <= tRet {
+						break
+					}
 					if closeAt[i] < tRet {
 						bad("not-gathered", "member %d was closed at %v, before the return, but was neither returned nor removed", i, closeAt[i])
 						return
